@@ -1,1 +1,17 @@
-fn main() { eprintln!("not implemented"); std::process::exit(2); }
+//! Checks for the response-rate-limiting properties.
+//!
+//!   p-rrl C26 <tier> [--replay FILE]   token bucket over time (history exploration)
+//!   p-rrl C27 <tier> [--replay FILE]   stream grouping (ordered request pairs)
+
+mod c26;
+mod c27;
+mod model;
+mod sut;
+
+fn main() {
+    let ctx = qvlib::Ctx::from_args(&["C26", "C27"]);
+    match ctx.id.as_str() {
+        "C26" => c26::run(ctx),
+        _ => c27::run(ctx),
+    }
+}
